@@ -299,3 +299,7 @@ Definition run_eval (i : input) : val :=
   | None => parse_error
   | Some d => let e := evaluate (cfg_of kd) use d in VL [VL (map enc_node e); VS (print_str e)]
   end.
+
+(* DepSet.parse on the string itself, and str(depset) *)
+Definition parse_str (c : cfg) (lf : str -> option str -> option leaf) (s : str) : option (list node) :=
+  parse c lf (split_ws s).
